@@ -544,6 +544,7 @@ class Program:
         self._load()
         self._resolve_jit_decorators()
         self._canonical_parameter_names()
+        self._inline_scalar_constants()
         self._positionalise_calls()
         self._collapse_forwarders()
         self._expand_wrapping_decorators()
@@ -601,6 +602,67 @@ class Program:
                     moved = True
                 if moved:
                     n.keywords = [k for k in n.keywords if k.arg in kwd]
+
+    # ------------------------------------------------------ named scalar constants
+    def _inline_scalar_constants(self):
+        """A module-level name bound exactly once to a number or a string (UP, DN = 0, 1; _IMP_FUN_MIN = 1.0e-3), or imported
+        from a module of the package where it is one, is replaced by its value wherever a function reads it and does not
+        bind the name itself.  The value graph folds such names anyway; this makes the rules that read the syntax tree
+        see `walkers[0]` whether the source says `walkers[0]` or `walkers[UP]`."""
+        import copy
+
+        def scalar(v) -> bool:
+            return isinstance(v, ast.Constant) and isinstance(v.value, (int, float, complex, str)) and \
+                not isinstance(v.value, bool)
+        for mod in self.modules.values():
+            consts = {k: v for k, v in mod.constants.items() if scalar(v)}
+            for alias, imp in mod.imports.items():
+                if imp[0] == "name" and imp[1].startswith(PKG + "."):
+                    src = self.modules.get(imp[1][len(PKG) + 1:])
+                    v = src.constants.get(imp[2]) if src is not None else None
+                    if v is not None and scalar(v) and alias not in consts:
+                        consts[alias] = v
+            if not consts:
+                continue
+
+            def bound_in(fn) -> Set[str]:
+                out = set()
+                a = fn.args
+                for x in a.posonlyargs + a.args + a.kwonlyargs + ([a.vararg] if a.vararg else []) + ([a.kwarg] if a.kwarg else []):
+                    out.add(x.arg)
+                body = [fn.body] if isinstance(fn, ast.Lambda) else fn.body
+                for st in body:
+                    for n in ast.walk(st):
+                        if isinstance(n, ast.Name) and isinstance(n.ctx, (ast.Store, ast.Del)):
+                            out.add(n.id)
+                        elif isinstance(n, (ast.Global, ast.Nonlocal)):
+                            out.update(n.names)
+                return out
+
+            def subst(n, live):
+                if isinstance(n, (ast.FunctionDef, ast.AsyncFunctionDef, ast.Lambda)):
+                    inner = {k: v for k, v in live.items() if k not in bound_in(n)}
+                    for f_, val in ast.iter_fields(n):
+                        if isinstance(val, list):
+                            for i_, ch in enumerate(val):
+                                if isinstance(ch, ast.AST):
+                                    val[i_] = subst(ch, inner if f_ == "body" else live)
+                        elif isinstance(val, ast.AST):
+                            setattr(n, f_, subst(val, inner if f_ == "body" else live))
+                    return n
+                if isinstance(n, ast.Name) and isinstance(n.ctx, ast.Load) and n.id in live:
+                    return ast.copy_location(copy.deepcopy(live[n.id]), n)
+                for f_, val in ast.iter_fields(n):
+                    if isinstance(val, list):
+                        for i_, ch in enumerate(val):
+                            if isinstance(ch, ast.AST):
+                                val[i_] = subst(ch, live)
+                    elif isinstance(val, ast.AST):
+                        setattr(n, f_, subst(val, live))
+                return n
+            for node in mod.tree.body:
+                if isinstance(node, (ast.FunctionDef, ast.AsyncFunctionDef, ast.ClassDef)):
+                    subst(node, consts)
 
     # ------------------------------------------------------ parameter names of the pinned tree
     def _canonical_parameter_names(self):
